@@ -27,14 +27,15 @@ pub struct GrammarAST { pub tokens: TokenSet, pub spans: Vec<Span>, pub token_di
 #[derive(Clone, Copy)] pub enum YaccGrammarErrorKind { IllegalString, Other }
 pub struct YaccGrammarError { pub kind: YaccGrammarErrorKind, pub spans: Vec<Span> }
 pub open spec fn err_ok(src: &Src, e: YaccGrammarError) -> bool { e.spans@.len() > 0 && spans_ok(src, e.spans@) }
-pub struct YaccParser { pub src: Src, pub ast: GrammarAST }
+pub struct YaccParser { pub src: Src, pub ast: GrammarAST, pub num_newlines: usize }
 
 impl YaccParser {
-    // the scanners (their bodies: yacc scanner unit, not built yet; contracts assumed here)
+    // the scanners: contracts proved in unit c12_yacc (parse_ws, parse_token, lookahead_is)
     #[verifier::external_body]
     fn parse_ws(&mut self, i: usize, inc_newlines: bool) -> (r: Result<usize, YaccGrammarError>)
         requires old(self).src.ok(i as int), // OBLG: C12.yacc.cursor_in_range_on_boundary
-        ensures final(self).src == old(self).src, final(self).ast == old(self).ast, r matches Ok(j) ==> i <= j && old(self).src.ok(j as int), r matches Err(e) ==> err_ok(&old(self).src, e),
+            old(self).num_newlines <= i, // OBLG: C12.yacc.newline_counter_bounded_by_cursor
+        ensures final(self).src == old(self).src, final(self).ast == old(self).ast, r matches Ok(j) ==> i <= j && old(self).src.ok(j as int) && final(self).num_newlines <= j, r matches Err(e) ==> err_ok(&old(self).src, e),
     { unimplemented!() }
     #[verifier::external_body]
     fn parse_token(&self, i: usize) -> (r: Result<(usize, Name, Span, bool), YaccGrammarError>)
@@ -78,12 +79,12 @@ pub proof fn lemma_declared_stable(a0: &GrammarAST, a1: &GrammarAST, id: int)
 impl YaccParser {
     //@ctx token_directive: the `%token` branch of parse_declarations; `i0` is the cursor at the directive
     fn token_directive(&mut self, i0: usize) -> (r: (Result<usize, YaccGrammarError>, Ghost<Seq<int>>))
-        requires old(self).src.ok(i0 as int), ast_wf(&old(self).ast),
+        requires old(self).src.ok(i0 as int), ast_wf(&old(self).ast), old(self).num_newlines <= i0,
         ensures final(self).src == old(self).src,
             ast_wf(&final(self).ast), // OBL: C10.token_spans_stay_parallel_to_tokens
             forall|k: int| 0 <= k < old(self).ast.tokens.seq().len() ==> final(self).ast.tokens.seq()[k] == old(self).ast.tokens.seq()[k], // OBL: C10.registered_tokens_keep_their_index
             final(self).ast.tokens.seq().len() >= old(self).ast.tokens.seq().len(),
-            r.0 matches Ok(k) ==> old(self).src.ok(k as int), // OBL: C12.yacc.token_directive.cursor_in_range_on_boundary
+            r.0 matches Ok(k) ==> old(self).src.ok(k as int) && final(self).num_newlines <= k, // OBL: C12.yacc.token_directive.cursor_in_range_on_boundary
             r.0 matches Err(e) ==> err_ok(&old(self).src, e), // OBL: C12.yacc.token_directive.error_spans_renderable
             forall|q: int| 0 <= q < r.1@.len() ==> declared(&final(self).ast, #[trigger] r.1@[q]), // OBL: C10.every_token_named_in_a_token_directive_is_marked_declared
     {
@@ -97,7 +98,7 @@ impl YaccParser {
         //@rule n=1 `= self\.parse_token\(i\)\?;` => `= match self.parse_token(i) { Ok(v_) => v_, Err(e_) => { return (Err(e_), Ghost(parsed_)); } };`
         //@rule n=1 `^(\s*)while i < self\.src\.len\(\) && self\.lookahead_is\(lit\("%", 1\), i\)\.is_none\(\) \{$` =>>
                 while i < self.src.len() && self.lookahead_is(lit("%", 1), i).is_none()
-                    invariant self.src == old(self).src, self.src.ok(i as int), ast_wf(&self.ast),
+                    invariant self.src == old(self).src, self.src.ok(i as int), ast_wf(&self.ast), self.num_newlines <= i,
                         self.ast.tokens.seq().len() >= old(self).ast.tokens.seq().len(),
                         forall|k: int| 0 <= k < old(self).ast.tokens.seq().len() ==> self.ast.tokens.seq()[k] == old(self).ast.tokens.seq()[k],
                         forall|q: int| 0 <= q < parsed_.len() ==> declared(&self.ast, #[trigger] parsed_[q]), // OBL: C10.every_token_named_in_a_token_directive_is_marked_declared.each
@@ -132,5 +133,5 @@ impl YaccParser {
         //@endbody
     }
 }
-//@undecided the other directives of parse_declarations (%left/%right/%nonassoc, %avoid_insert, %implicit_tokens, %epp, %expect*, %parse-param) and the scanners are not under contract yet
+//@undecided the other directives of parse_declarations (%left/%right/%nonassoc, %avoid_insert, %implicit_tokens, %epp, %expect*, %parse-param) are not under contract yet
 //@use prelude/tail.rs
